@@ -1,6 +1,7 @@
 (* C20: the enumerations the generated constants (gen/ConstsC20.v) and the model
    (model/TagsC20.v) share. *)
-Inductive sfield := FVersion | FExtra | FType | FTagScore.      (* elements of Candidate.sortkey *)
+Inductive sfield := FVersion | FExtra | FType | FTagScore | FFilename.      (* elements of Candidate.sortkey *)
 Inductive tfield := TPy | TPlat | TAbi | TExtra.                 (* elements of Candidate.tag_score *)
 Inductive reason := WrongPython | WrongAbi | WrongPlatform | IsPrerelease | VersionNoSatisfy.
 Inductive dist_type := Source | Wheel | Sdist.                   (* DistributionType *)
+Inductive amode := ANone | ATable | APrefix.                      (* how legacy manylinux tags are re-spelled *)
